@@ -454,9 +454,104 @@ def r07_f(prog: Program, chk: Check) -> None:
         )
 
 
+# ------------------------------------------------------------------- R07.h
+def r07_h(prog: Program, chk: Check) -> None:
+    import itertools
+
+    from ..minterp import AssertionFailed, Interp, ModelError, Obj, PyRaise, Sym, Unsupported
+
+    chk.rule(
+        "R07.h",
+        "an override is compared with every definition it overrides, as a finite model: NameCheckVisitor._check_for_incompatible_overrides and _get_base_class_attributes are "
+        "interpreted from their AST for a class with up to three further classes in its MRO, each of which defines the name or not and is compatible with the override or not "
+        "(64 configurations): incompatible_override is reported for exactly the bases that define the name and are incompatible - a definition further up the MRO (second base of "
+        "multiple inheritance, a grandparent) that the override does not satisfy is not hidden by a nearer one it does satisfy",
+        floor=2,
+    )
+    ncv = prog.cls("NameCheckVisitor")
+    for mname in ("_check_for_incompatible_overrides", "_get_base_class_attributes"):
+        if mname not in ncv.methods:
+            raise AnchorError(f"NameCheckVisitor.{mname} not found")
+    check_fn = ncv.methods["_check_for_incompatible_overrides"]
+    bases_fn = ncv.methods["_get_base_class_attributes"]
+    uninit = Obj("UninitializedValue")
+    missed, spurious, crashes = [], [], []
+    n = 0
+    names = ["B1", "B2", "B3"]
+    for k in range(1, 4):
+        for config in itertools.product(("absent", "compatible", "incompatible"), repeat=k):
+            n += 1
+            current = Sym("Child")
+            bases = [Sym(b) for b in names[:k]]
+            state = dict(zip([str(b) for b in bases], config))
+            reported: List[str] = []
+
+            def get_attribute(args, state=state):
+                ctx = args[0]
+                base = ctx._attrs["base"]
+                return uninit if state[str(base)] == "absent" else Obj("Value", of=str(base))
+
+            def attr_context(args, kwargs=None):
+                root = args[0]
+                return Obj("_AttrContext", base=root._attrs["value"]._attrs["typ"], attr=args[1])
+
+            attr_context.wants_kwargs = True  # type: ignore[attr-defined]
+
+            last: List[str] = []
+
+            def can_assign_to_base(base_value, value, base_class, node, state=state, last=last):
+                last[:] = [str(base_class)]
+                return Obj("CanAssignError", message="incompatible") if state[str(base_class)] == "incompatible" else {}
+
+            def show(node, message=None, error_code=None, reported=reported, last=last, **kw):
+                reported.append(last[0] if last else "?")  # the diagnostic follows the comparison it reports
+
+            funcs = {
+                "TypedValue": lambda a: Obj("TypedValue", typ=a[0]), "Composite": lambda a: Obj("Composite", value=a[0]), "_AttrContext": attr_context,
+                "CanAssignError": (lambda a, kw=None: Obj("CanAssignError", message=a[0] if a else "", children=(kw or {}).get("children", []))),
+            }
+            funcs["CanAssignError"].wants_kwargs = True  # type: ignore[attr-defined]
+
+            def hook(v, cls):
+                if cls == "CanAssignError":
+                    return isinstance(v, Obj) and v._kind == "CanAssignError"
+                return None
+
+            holder: List[Interp] = []
+            self_obj = Obj(
+                "NameCheckVisitor", current_class=current, get_generic_bases=lambda c, bases=bases, current=current: [current] + list(bases),
+                options=Obj("Options", get_value_for=lambda o: ()), _can_assign_to_base=can_assign_to_base, _show_error_if_checking=show, display_value=lambda v: "value",
+            )
+            self_obj._attrs["_get_base_class_attributes"] = lambda varname, node, self_obj=self_obj: holder[0].call_def(bases_fn, [self_obj, varname, node], bases_fn)
+            it = Interp({}, {}, (), funcs, hook, {}, {}, {"UNINITIALIZED_VALUE": uninit, "attributes": Obj("module", get_attribute=lambda ctx: get_attribute([ctx])), "ErrorCode": Obj("ErrorCode", incompatible_override=Sym("incompatible_override")), "IgnoredForIncompatibleOverride": Sym("IgnoredForIncompatibleOverride"), "__concrete_fstrings__": True})
+            holder.append(it)
+            d = {"mro": "Child -> " + " -> ".join(f"{b} ({c})" for b, c in zip(names, config))}
+            try:
+                it.call_def(check_fn, [self_obj, "method", Sym("node"), Obj("Value", of="Child")], check_fn)
+            except Unsupported as u:
+                raise AnchorError(f"_check_for_incompatible_overrides cannot be modelled: {u}")
+            except (AssertionFailed, PyRaise, ModelError) as e:
+                crashes.append({**d, "error": str(e)})
+                continue
+            want = [b for b, c in zip(names, config) if c == "incompatible"]
+            got = [b for b in names if any(b in r for r in reported)]
+            if [b for b in want if b not in got]:
+                missed.append({**d, "reported for": got, "not reported for": [b for b in want if b not in got]})
+            if [b for b in got if b not in want]:
+                spurious.append({**d, "reported for": got, "incompatible bases": want})
+    chk.model_evaluations += n
+    site = prog.site("name_check_visitor", bases_fn)
+    for lst in (missed, spurious):
+        lst.sort(key=lambda x: len(x["mro"]))
+    chk.ob("R07.h", "name_check_visitor::override-model::every incompatible definition in the MRO is reported", not missed, site, f"{n} class hierarchies, {len(missed)} with an incompatible base that is not reported" + (f"; smallest: {missed[0]}" if missed else ""), witness=missed[:5])
+    chk.ob("R07.h", "name_check_visitor::override-model::nothing is reported for a compatible or absent definition", not spurious, site, f"{len(spurious)} hierarchies with a spurious report" + (f"; smallest: {spurious[0]}" if spurious else ""), witness=spurious[:5])
+    chk.ob("R07.h", "name_check_visitor::override-model::no-crash", not crashes, site, f"{len(crashes)} crashes" + (f"; first: {crashes[0]}" if crashes else ""), witness=crashes[:3])
+
+
 def run(prog: Program, chk: Check) -> None:
     guard(chk, r07_e, prog, chk)
     guard(chk, r07_a, prog, chk)
     guard(chk, r07_b, prog, chk)
     guard(chk, r07_c, prog, chk)
     guard(chk, r07_f, prog, chk)
+    guard(chk, r07_h, prog, chk)
